@@ -657,6 +657,14 @@ func (m *Machine) builtinTyped(b *ssa.Builtin, c *ssa.CallCommon, args []Value) 
 			m.raise(fault("nil-deref", "value method called via nil pointer"))
 		}
 		return args[0]
+	case "Sizeof":
+		if c != nil {
+			return m.st.Const(64, uint64(sizeof(c.Args[0].Type())))
+		}
+	case "Alignof":
+		if c != nil {
+			return m.st.Const(64, uint64(sizes.Alignof(c.Args[0].Type())))
+		}
 	case "Add": // unsafe.Add(ptr, len)
 		p := m.ptrOperand(args[0])
 		t := args[1].(*Term)
@@ -682,7 +690,24 @@ func (m *Machine) builtinTyped(b *ssa.Builtin, c *ssa.CallCommon, args []Value) 
 		l := m.constInt(args[1].(*Term), "unsafe.Slice len")
 		return SliceVal{P: p, Len: l, Cap: l}
 	case "clear":
-		m.unsupported("clear builtin")
+		switch v := args[0].(type) {
+		case SliceVal:
+			es := int64(1)
+			if c != nil {
+				es = sizeof(c.Args[0].Type().Underlying().(*types.Slice).Elem())
+			}
+			if v.Len*es > 0 {
+				o := m.wobj(v.P, v.Len*es, "clear")
+				m.clearRange(o, v.P.Off, v.Len*es)
+			}
+			return nil
+		case Ptr:
+			if d := m.mapData(v, true); d != nil {
+				d.Entries = nil
+			}
+			return nil
+		}
+		m.unsupported("clear of %T", args[0])
 	}
 	m.unsupported("builtin %s", b.Name())
 	return nil
